@@ -7,13 +7,13 @@ package simsync
 
 import (
 	"sync"
+	"sync/atomic"
 
 	"falcosim/sim/simhook"
 )
 
 type (
 	WaitGroup = sync.WaitGroup
-	Once      = sync.Once
 	Map       = sync.Map
 	Cond      = sync.Cond
 	Locker    = sync.Locker
@@ -95,6 +95,28 @@ func NewCond(l Locker) *Cond                                   { return sync.New
 func OnceFunc(f func()) func()                                 { return sync.OnceFunc(f) }
 func OnceValue[T any](f func() T) func() T                     { return sync.OnceValue(f) }
 func OnceValues[T1, T2 any](f func() (T1, T2)) func() (T1, T2) { return sync.OnceValues(f) }
+
+// Once is sync.Once over the cooperative Mutex. sync.Once keeps its internal
+// mutex locked while the function runs; a second caller then blocks on a real
+// mutex, which a synctest bubble does not count as durably blocked — with the
+// first caller parked (on a channel, or by the scheduler) the bubble would
+// never become idle and the simulated clock would stop for good.
+type Once struct {
+	done atomic.Bool
+	m    Mutex
+}
+
+func (o *Once) Do(f func()) {
+	if o.done.Load() {
+		return
+	}
+	o.m.Lock()
+	defer o.m.Unlock()
+	if !o.done.Load() {
+		defer o.done.Store(true)
+		f()
+	}
+}
 
 type Mutex struct {
 	mu  sync.Mutex
